@@ -28,8 +28,10 @@ RELATED = {
     "C05": ["C16", "C06", "C10"], "C06": ["C07", "C05"], "C07": ["C16", "C10", "C06"], "C10": ["C07", "C05"], "C11": ["C07", "C09"],
     "C08": ["C06"], "C09": ["C11"], "C12": ["C03"], "C14": ["C07"], "C15": [], "C16": ["C05"], "C17": [], "C18": [], "C19": [], "C20": [],
 }
-HIST = {"D6": "C01", "D1": "C04", "D2": "C02", "D3": "C07", "D4": "C15", "D5": "C12", "D7": "C14"}
-HIST_ALSO = {"D6": [], "D1": ["C03"], "D2": ["C03", "C04"], "D3": ["C10"], "D4": [], "D5": [], "D7": []}
+HIST = {"D8": "C04", "D6": "C01", "D1": "C04", "D2": "C02", "D3": "C07", "D4": "C15", "D5": "C12", "D7": "C14"}
+# seeds that need two requests in one state call are only within reach of the thorough tier
+TIER_OF = {"D6": "thorough", "D8": "thorough"}
+HIST_ALSO = {"D8": [], "D6": [], "D1": ["C03"], "D2": ["C03", "C04"], "D3": ["C10"], "D4": [], "D5": [], "D7": []}
 
 
 def sh(cmd, cwd=None, env=None, timeout=1800):
@@ -106,7 +108,7 @@ def work(args):
         res["confirmed"] = rc0 == 0 and rc1 != 0 and rct == 0 and res["tests_passed"] >= 43
         res["checks"] = {}
         for c in checks:
-            rcc, oc = sh([os.path.join(VERIF, "bin", "check"), c, "--repo", wt, "--no-evidence"], cwd=VERIF, timeout=3000)
+            rcc, oc = sh([os.path.join(VERIF, "bin", "check"), c, "--repo", wt, "--no-evidence"] + (["--tier", TIER_OF[sid]] if sid in TIER_OF else []), cwd=VERIF, timeout=3000)
             rules = sorted(set(re.findall(r"^  ((?:C\d\d|CRASH|ISO)[.\w]*):", oc, re.M)))
             first = next((l.strip()[:300] for l in oc.splitlines() if re.match(r"^  (C\d\d|CRASH|ISO)", l)), "")
             res["checks"][c] = {"exit": rcc, "rules": rules, "first": first if rcc == 1 else ("" if rcc == 0 else oc.strip().splitlines()[-1][:300])}
